@@ -39,10 +39,11 @@ const (
 	kChainR
 	kLet
 	kRef
+	kZero // the zero value lazy.Eval[int]{}: Resume substitutes the zero int for the missing first thunk
 )
 
 var kindName = map[kind]string{kDone: "Done", kCall: "Call", kFunc1: "Func1", kFunc2: "Func2", kFunc3: "Func3", kTail: "TailCall", kTail1: "TailCall1",
-	kTail2: "TailCall2", kTail3: "TailCall3", kMap: "Map", kFlatMap: "FlatMap", kMap2: "Map2", kChainL: "ChainL", kChainR: "ChainR", kLet: "Let", kRef: "Ref"}
+	kTail2: "TailCall2", kTail3: "TailCall3", kMap: "Map", kFlatMap: "FlatMap", kMap2: "Map2", kChainL: "ChainL", kChainR: "ChainR", kLet: "Let", kRef: "Ref", kZero: "ZeroEval"}
 
 // vexp is a value expression evaluated (strictly) when the enclosing Eval is
 // constructed: a constant, optionally plus a variable bound by an enclosing
@@ -118,6 +119,8 @@ func (n *node) print(sb *strings.Builder) {
 	switch n.kind {
 	case kDone:
 		fmt.Fprintf(sb, "Done(%s)", n.val)
+	case kZero:
+		sb.WriteString("Eval{}")
 	case kCall:
 		fmt.Fprintf(sb, "Call(%s)", n.val)
 	case kFunc1, kFunc2, kFunc3:
@@ -209,7 +212,9 @@ func (g *gen) step() step {
 	return step{kind: rapid.IntRange(0, 5).Draw(g.rt, "stepkind"), kid: g.id(), f: g.affine(), method: rapid.Bool().Draw(g.rt, "method")}
 }
 
-var leafKinds = []kind{kDone, kCall, kFunc1, kFunc2, kFunc3}
+// kZero once in eleven leaves: an Eval left at its zero value (a struct field never assigned, what
+// reflectfp.LazyCall starts from) evaluates to the zero value wherever it stands in a program
+var leafKinds = []kind{kDone, kDone, kCall, kCall, kFunc1, kFunc1, kFunc2, kFunc2, kFunc3, kFunc3, kZero}
 var innerKinds = []kind{kTail, kTail1, kTail2, kTail3, kMap, kMap, kFlatMap, kFlatMap, kFlatMap, kMap2, kMap2, kChainL, kChainR}
 
 // tree draws a program of at most `budget` nodes (chain steps count as nodes).
@@ -383,6 +388,8 @@ func (c *ctx) build(n *node, env []int, sh []lazy.Eval[int]) lazy.Eval[int] {
 	switch n.kind {
 	case kDone:
 		return lazy.Done(n.val.eval(env))
+	case kZero:
+		return lazy.Eval[int]{}
 	case kCall:
 		v := n.val.eval(env)
 		hit := c.deferred(n.id)
@@ -563,6 +570,8 @@ func (w *walker) walk(n *node, env []int, shv []int) (int, iv) {
 	switch n.kind {
 	case kDone:
 		return n.val.eval(env), emptyIv
+	case kZero:
+		return 0, emptyIv
 	case kCall:
 		return n.val.eval(env), w.ev(n.id, true)
 	case kFunc1:
